@@ -14,16 +14,17 @@ extract/model_driver: build/.coq_stamp extract/Extract.v extract/driver.ml
 	cd extract && coqc -Q ../coq MP Extract.v > /dev/null
 	cd extract && ocamlfind ocamlopt -w -a -package str model.mli model.ml driver.ml -o model_driver.tmp && mv -f model_driver.tmp model_driver
 # independent Coq developments (own _CoqProject) built if present
-SUBV=$(wildcard coq_effects/*.v coq_effects/_CoqProject coq_qcheck/*.v coq_qcheck/_CoqProject)
+SUBDIRS=
+SUBV=$(foreach d,$(SUBDIRS),$(wildcard $(d)/*.v $(d)/_CoqProject))
 build/.sub_stamp: $(SUBV)
 	$(MAKE) subprojects
 	mkdir -p build && touch build/.sub_stamp
 subprojects:
-	@for d in coq_effects coq_qcheck; do \
+	@for d in $(SUBDIRS); do \
 	  if [ -f $$d/_CoqProject ]; then \
 	    (cd $$d && ( [ -f Makefile.coq ] || coq_makefile -f _CoqProject -o Makefile.coq ) && $(MAKE) -f Makefile.coq -j8 > /dev/null) || exit 1; \
 	  fi; done
 clean:
 	-$(MAKE) -C coq -f Makefile.coq clean
 	rm -f coq/Makefile.coq coq/Makefile.coq.conf extract/model.ml extract/model.mli extract/*.cm* extract/*.o extract/model_driver extract/*.vo* extract/*.glob extract/.*.aux build/.coq_stamp build/.sub_stamp
-	-for d in coq_effects coq_qcheck; do if [ -f $$d/Makefile.coq ]; then $(MAKE) -C $$d -f Makefile.coq clean; rm -f $$d/Makefile.coq $$d/Makefile.coq.conf; fi; done
+	-for d in $(SUBDIRS); do if [ -f $$d/Makefile.coq ]; then $(MAKE) -C $$d -f Makefile.coq clean; rm -f $$d/Makefile.coq $$d/Makefile.coq.conf; fi; done
